@@ -1,6 +1,7 @@
 /-
 C12 — Marshal is all-or-nothing and never panics.
 -/
+import Smpp.Properties.SrcPduCodec
 import Smpp.Proofs.Roundtrip
 import Smpp.Generated.Layouts
 import Smpp.Generated.PduFacts
